@@ -16,7 +16,7 @@ import (
 )
 
 const rule = "streams of 10-60 healthy concurrent requests (GET/POST, bodies up to 64 KiB) with 1-4 faults inserted at generated positions; " +
-	"fault kinds x injection points: pending list (5xx, garbage JSON, truncated reply), request fetch (404, 5xx x1-3, truncated or garbled " +
+	"fault kinds x injection points: pending list (5xx, garbage JSON, truncated reply, dropped connection, non-HTTP reply), request fetch (connection dropped on every attempt / on the first only, non-HTTP reply, reset mid-body, 404, 5xx x1-3, truncated or garbled " +
 	"wire request, missing start-time header, unparsable start time), backend (accept-then-close before/after reading, garbage status line, " +
 	"headers without end, bad chunk size, short Content-Length, reset mid-body, 2 MiB header, 1xx flood), upload (5xx x1-3, connection reset), " +
 	"shim endpoints (malformed JSON, wrong JSON types, unknown IDs, 1 MiB bodies on open/data/poll/close), plus a second agent whose backend " +
@@ -32,7 +32,8 @@ var (
 func TestMain(m *testing.M) { vh.Main(m, rec, recGrid) }
 
 var faultKinds = []string{
-	"list-5xx", "list-garbage", "list-truncated",
+	"list-5xx", "list-garbage", "list-truncated", "list-drop", "list-not-http",
+	"fetch-drop", "fetch-drop-1", "fetch-not-http", "fetch-reset-mid-body",
 	"fetch-404", "fetch-5xx-1", "fetch-5xx-2", "fetch-5xx-3", "fetch-truncated", "fetch-garbled", "fetch-no-start-time", "fetch-bad-start-time",
 	"backend-close-before-read", "backend-close-after-read", "backend-garbage-status", "backend-endless-header", "backend-bad-chunk",
 	"backend-short-length", "backend-reset-mid-body", "backend-huge-header", "backend-1xx-flood",
@@ -158,6 +159,10 @@ func getRig(t vh.TB) *rig {
 			w.Header().Set("Content-Length", "50")
 			w.Write([]byte(`["abc`))
 			panic(http.ErrAbortHandler)
+		case "list-drop":
+			hijackAnd(w, nil, false)
+		case "list-not-http":
+			hijackAnd(w, []byte("\x00\x01\x02 definitely not HTTP\r\n\r\n"), false)
 		}
 		return true
 	}
@@ -171,6 +176,17 @@ func getRig(t vh.TB) *rig {
 		switch f {
 		case "":
 			return false
+		case "fetch-drop": // every attempt: the connection is closed without any response
+			hijackAnd(w, nil, false)
+		case "fetch-drop-1": // the first attempt only; the retry is served
+			if n > 1 {
+				return false
+			}
+			hijackAnd(w, nil, false)
+		case "fetch-not-http":
+			hijackAnd(w, []byte("SSH-2.0-OpenSSH_9.0\r\n"), false)
+		case "fetch-reset-mid-body":
+			hijackAnd(w, []byte("HTTP/1.1 200 OK\r\n"+vh.HdrStartTime+": "+now+"\r\nContent-Length: 5000\r\n\r\nGET /half"), true)
 		case "fetch-404":
 			http.NotFound(w, rq)
 		case "fetch-5xx-1", "fetch-5xx-2", "fetch-5xx-3":
@@ -247,6 +263,30 @@ func closeRig() {
 		theRig.backend.Close()
 		theRig = nil
 	}
+}
+
+// hijackAnd takes the connection away from the HTTP server, optionally writes raw bytes, and closes (or resets) it.
+func hijackAnd(w http.ResponseWriter, raw []byte, reset bool) {
+	hj, ok := w.(http.Hijacker)
+	if !ok {
+		if u, ok := w.(interface{ Unwrap() http.ResponseWriter }); ok {
+			hj, _ = u.Unwrap().(http.Hijacker)
+		}
+	}
+	if hj == nil {
+		panic(http.ErrAbortHandler)
+	}
+	c, _, err := hj.Hijack()
+	if err != nil {
+		return
+	}
+	if raw != nil {
+		c.Write(raw)
+	}
+	if tc, ok := c.(*net.TCPConn); ok && reset {
+		tc.SetLinger(0)
+	}
+	c.Close()
 }
 
 type span struct{ start, end time.Time }
